@@ -16,17 +16,27 @@
    HashMaps are association lists with at most one entry per key (`put` removes the old entry);
    nothing in the code depends on HashMap iteration order (retain / get / insert / remove only).
    Strings (RID / MID) are their UTF-8 byte lists; `std::str::from_utf8` is `utf8_valid`.
-   A packet is what RtpPacket::parse produced: SSRC, payload type and the list of header
-   extension elements (id, data) in wire order; `RtpHeader::get_extension id` returns the data of
-   the first element with that id (one-byte and two-byte forms alike).
+   A packet is what RtpPacket::parse produced: SSRC, payload type and the raw header-extension
+   block (profile, data bytes); RID / MID extraction is the byte-level `get_extension` of C15's
+   Model/Rtp.v (imported, not copied), so malformed blocks (truncated elements, id-15 terminators,
+   padding, unknown profiles) are covered.
    The selection order and the per-stage SSRC-bind flags are NOT written here: they are
    `Gen.RtpDemux.demux_stages`, regenerated from the source on every run.
    Not modelled: SRTP unprotect, RTCP branch, observers, the received-packets counter, the rewrite
-   bridge (Model/Bridge.v), a full listener channel (try_send `Full` drops the packet and changes
-   nothing; the harness keeps the channels drained). *)
+   bridge (Model/Bridge.v).
+   Listener channels are bounded: `qs` is the log of (listener, packet tag) pairs currently queued, in
+   arrival order (the queue of listener l is its sub-list), `cap` the channel capacity, `tick` the
+   tag of the next arriving packet.  try_send: Closed is reported before Full; `Full` drops the
+   packet after selection and SSRC binding took place and changes nothing else; `receive` never
+   blocks and never reorders.  `Drain l` is the consumer emptying its channel.
+   The MID guard (a packet naming a media section is not handed by the SSRC / payload-type /
+   provisional stages to a listener registered for another MID; `fix:` in /repo) is switched by
+   the regenerated `demux_mid_guard`, the stages exempt from it are `demux_ext_stages`. *)
 From Coq Require Import ZArith List Bool.
 From RV Require Import Lib.Wrap.
 From RV Require Import Gen.RtpDemux.
+From RV Require Model.RtpLib.
+From RV Require Model.Rtp.
 Import ListNotations.
 Open Scope Z_scope.
 Open Scope bool_scope.
@@ -81,11 +91,16 @@ Record st : Set := mkSt {
   routes : list route;
   rid_id : Z;               (* AtomicU8, EXT_ID_NONE = not configured *)
   mid_id : Z;
-  closed : list lid }.      (* channels whose receiver is gone *)
+  closed : list lid;        (* channels whose receiver is gone *)
+  qs : list (lid * Z);      (* queued (listener, packet tag), oldest first *)
+  cap : Z;                  (* capacity of every listener channel *)
+  tick : Z }.               (* tag of the next arriving packet *)
 
-Definition init : st := mkSt [] [] [] [] EXT_ID_NONE EXT_ID_NONE [].
+Definition init_with (c : Z) : st := mkSt [] [] [] [] EXT_ID_NONE EXT_ID_NONE [] [] c 0.
+Definition init : st := init_with 8.
 
-Record pkt : Set := mkPkt { p_ssrc : Z; p_pt : Z; p_exts : list (Z * list Z) }.
+(* p_ext: the header extension block as parsed: (profile, data bytes) *)
+Record pkt : Set := mkPkt { p_ssrc : Z; p_pt : Z; p_ext : option (Z * list Z) }.
 
 Inductive op : Set :=
 | RegSsrc (ssrc : Z) (l : lid)          (* register_listener_sync *)
@@ -96,20 +111,27 @@ Inductive op : Set :=
 | RegProv (l : lid)                     (* register_provisional_listener *)
 | SetRidId (id : Z)                     (* set_rid_extension_id (0 = None) *)
 | SetMidId (id : Z)                     (* set_sdes_mid_extension_id *)
-| Close (l : lid)                       (* the listener's receiver is dropped *)
+| Close (l : lid)                       (* the listener's receiver is dropped (with what it held) *)
 | ClearListeners                        (* clear_listeners *)
 | Probe (ssrc : Z)                      (* has_listener: observation only *)
+| Drain (l : lid)                       (* the consumer of listener l empties its channel *)
 | Recv (p : pkt).                       (* RtpTransport::receive of a parsed RTP packet *)
 
 (* ---- setters *)
 Definition set_by_ssrc (s : st) (m : list (Z * lid)) : st :=
-  mkSt m (by_rid s) (by_mid s) (routes s) (rid_id s) (mid_id s) (closed s).
+  mkSt m (by_rid s) (by_mid s) (routes s) (rid_id s) (mid_id s) (closed s) (qs s) (cap s) (tick s).
 Definition set_by_rid (s : st) (m : list (key * lid)) : st :=
-  mkSt (by_ssrc s) m (by_mid s) (routes s) (rid_id s) (mid_id s) (closed s).
+  mkSt (by_ssrc s) m (by_mid s) (routes s) (rid_id s) (mid_id s) (closed s) (qs s) (cap s) (tick s).
 Definition set_by_mid (s : st) (m : list (key * lid)) : st :=
-  mkSt (by_ssrc s) (by_rid s) m (routes s) (rid_id s) (mid_id s) (closed s).
+  mkSt (by_ssrc s) (by_rid s) m (routes s) (rid_id s) (mid_id s) (closed s) (qs s) (cap s) (tick s).
 Definition set_routes (s : st) (r : list route) : st :=
-  mkSt (by_ssrc s) (by_rid s) (by_mid s) r (rid_id s) (mid_id s) (closed s).
+  mkSt (by_ssrc s) (by_rid s) (by_mid s) r (rid_id s) (mid_id s) (closed s) (qs s) (cap s) (tick s).
+Definition set_ids (s : st) (r m : Z) : st :=
+  mkSt (by_ssrc s) (by_rid s) (by_mid s) (routes s) r m (closed s) (qs s) (cap s) (tick s).
+Definition set_closed (s : st) (c : list lid) : st :=
+  mkSt (by_ssrc s) (by_rid s) (by_mid s) (routes s) (rid_id s) (mid_id s) c (qs s) (cap s) (tick s).
+Definition set_qs (s : st) (q : list (lid * Z)) (t : Z) : st :=
+  mkSt (by_ssrc s) (by_rid s) (by_mid s) (routes s) (rid_id s) (mid_id s) (closed s) q (cap s) t.
 
 (* ---- maps *)
 Definition zget (m : list (Z * lid)) (k : Z) : option lid :=
@@ -173,7 +195,8 @@ Definition register_rid (s : st) (rid : key) (l : lid) : st :=
 
 Definition remove_sender (s : st) (l : lid) : st :=
   mkSt (drop_tx l (by_ssrc s)) (drop_tx l (by_rid s)) (drop_tx l (by_mid s))
-       (filter (fun r => negb (r_tx r =? l)) (routes s)) (rid_id s) (mid_id s) (closed s).
+       (filter (fun r => negb (r_tx r =? l)) (routes s)) (rid_id s) (mid_id s) (closed s)
+       (qs s) (cap s) (tick s).
 
 (* unique_by_pt / single_provisional: one scan, the first matching route is remembered, a later
    matching route on another channel makes the answer None *)
@@ -193,13 +216,19 @@ Definition unique_by_pt (rs : list route) (pt : Z) : option lid :=
 Definition single_provisional (rs : list route) : option lid :=
   scan_unique r_prov None rs.
 
-(* ---- header extensions of the packet *)
-Definition get_ext (exts : list (Z * list Z)) (id : Z) : option (list Z) :=
-  option_map snd (find (fun e => fst e =? id) exts).
+(* ---- header extensions of the packet: RtpHeader::get_extension, byte level (C15's model) *)
+Definition hdr_of (p : pkt) : Rtp.header :=
+  Rtp.mkHdr false (p_pt p) 0 0 (p_ssrc p) []
+            (match p_ext p with Some (prof, d) => Some (Rtp.mkExt prof d) | None => None end).
+Definition get_ext (p : pkt) (id : Z) : option (list Z) :=
+  match Rtp.get_extension (hdr_of p) id with
+  | RtpLib.Ok (Some d) => Some d
+  | _ => None
+  end.
 (* decode_ext_id(id).and_then(get_extension) followed by from_utf8(..).ok() *)
 Definition ext_key (id : Z) (p : pkt) : option key :=
   if id =? EXT_ID_NONE then None
-  else match get_ext (p_exts p) id with
+  else match get_ext p id with
        | Some d => if utf8_valid d then Some d else None
        | None => None
        end.
@@ -225,7 +254,31 @@ Fixpoint select_in (stages : list (stage * bool)) (s : st) (p : pkt) : option (l
       | None => select_in rest s p
       end
   end.
-Definition select (s : st) (p : pkt) : option (lid * stage * bool) := select_in demux_stages s p.
+Definition select_raw (s : st) (p : pkt) : option (lid * stage * bool) := select_in demux_stages s p.
+
+(* ListenerRegistry::registered_for_other_mid *)
+Definition other_mid (s : st) (l : lid) (m : key) : bool :=
+  existsb (fun r => (r_tx r =? l) &&
+                    match r_mid r with Some m' => negb (key_eqb m' m) | None => false end) (routes s).
+Definition is_ext_stage (g : stage) : bool :=
+  existsb (fun g' => match g, g' with
+                     | StRid, StRid | StMid, StMid | StSsrc, StSsrc | StPt, StPt | StProv, StProv => true
+                     | _, _ => false end) demux_ext_stages.
+(* the candidate of a non-extension stage that registered for another section than the packet names *)
+Definition foreign (s : st) (p : pkt) (l : lid) (g : stage) : bool :=
+  demux_mid_guard && negb (is_ext_stage g) &&
+  match pkt_mid s p with Some m => other_mid s l m | None => false end.
+
+Definition select (s : st) (p : pkt) : option (lid * stage * bool) :=
+  match select_raw s p with
+  | Some (l, g, b) => if foreign s p l g then None else Some (l, g, b)
+  | None => None
+  end.
+
+(* ---- bounded listener channels *)
+Definition queue (s : st) (l : lid) : list Z := map snd (filter (fun e => fst e =? l) (qs s)).
+Definition qlen (s : st) (l : lid) : Z := Z.of_nat (length (queue s l)).
+Definition is_full (s : st) (l : lid) : bool := cap s <=? qlen s l.
 
 (* ---- receive: state after, and the listeners the packet was handed to *)
 Definition recv (s : st) (p : pkt) : st * list lid :=
@@ -235,11 +288,16 @@ Definition recv (s : st) (p : pkt) : st * list lid :=
       let s1 := if bind then bind_ssrc_route s (p_ssrc p) l else s in
       if is_closed s1 l
       then (remove_sender (set_by_ssrc s1 (zdel (by_ssrc s1) (p_ssrc p))) l, [])
+      else if is_full s1 l then (s1, [])
       else (s1, [l])
   end.
 
+(* the delivered packet (tag = tick) is appended to the log; every arrival advances the tick *)
+Definition after_recv (s : st) (d : list lid) : st :=
+  set_qs s (qs s ++ map (fun l => (l, tick s)) d) (tick s + 1).
+
 Definition clear_listeners (s : st) : st :=
-  mkSt [] [] [] [] (rid_id s) (mid_id s) (closed s).
+  mkSt [] [] [] [] (rid_id s) (mid_id s) (closed s) (qs s) (cap s) (tick s).
 
 Definition wrap_id (id : Z) : Z := cast_u8 id.
 
@@ -251,12 +309,13 @@ Definition step (s : st) (o : op) : st * list lid :=
   | RegPt pt l => (register_payload_type s pt l, [])
   | RegPtList pts l => (register_payload_types s pts l, [])
   | RegProv l => (register_provisional s l, [])
-  | SetRidId i => (mkSt (by_ssrc s) (by_rid s) (by_mid s) (routes s) (wrap_id i) (mid_id s) (closed s), [])
-  | SetMidId i => (mkSt (by_ssrc s) (by_rid s) (by_mid s) (routes s) (rid_id s) (wrap_id i) (closed s), [])
-  | Close l => (mkSt (by_ssrc s) (by_rid s) (by_mid s) (routes s) (rid_id s) (mid_id s) (l :: closed s), [])
+  | SetRidId i => (set_ids s (wrap_id i) (mid_id s), [])
+  | SetMidId i => (set_ids s (rid_id s) (wrap_id i), [])
+  | Close l => (set_qs (set_closed s (l :: closed s)) (filter (fun e => negb (fst e =? l)) (qs s)) (tick s), [])
   | ClearListeners => (clear_listeners s, [])
   | Probe _ => (s, [])
-  | Recv p => recv s p
+  | Drain l => (set_qs s (filter (fun e => negb (fst e =? l)) (qs s)) (tick s), [])
+  | Recv p => (after_recv (fst (recv s p)) (snd (recv s p)), snd (recv s p))
   end.
 
 Fixpoint run (s : st) (ops : list op) : st :=
@@ -273,7 +332,8 @@ Fixpoint run_out (s : st) (ops : list op) : list (list lid) :=
   end.
 
 (* ---- observations compared with the implementation: for every Recv the listeners that got the
-   packet and has_listener(ssrc) afterwards; for every Probe has_listener(ssrc) *)
+   packet and has_listener(ssrc) afterwards; for every Probe has_listener(ssrc); for every Drain
+   the tags of the packets taken from the channel, in the order received *)
 Definition has_listener (s : st) (ssrc : Z) : bool :=
   match zget (by_ssrc s) ssrc with Some _ => true | None => false end.
 
@@ -286,6 +346,7 @@ Fixpoint run_obs (s : st) (ops : list op) : list obs :=
       match o with
       | Recv p => (d, has_listener s' (p_ssrc p)) :: run_obs s' rest
       | Probe x => ([], has_listener s' x) :: run_obs s' rest
+      | Drain l => (queue s l, false) :: run_obs s' rest
       | _ => run_obs s' rest
       end
   end.
